@@ -23,3 +23,4 @@ import SpoxModel.Props.C18
 #print axioms C18.declared_type_reported
 #print axioms C18.declared_types_carried
 #print axioms C18.untyped_result_refused
+#print axioms C18.construct_reports
